@@ -108,3 +108,51 @@ Proof.
   exact (proj1 (proj1 (position_invariant K toks verbose use_cache M aeval ex td Ht Hw fuel n init_state HI))).
 Qed.
 Print Assumptions C04_cache_entries_consistent.
+
+(* The general equality "cache on = cache off", where it is TRUE.  For every module WITHOUT a
+   left-recursive leader, run quietly (verbose off) from any state with error mode off and an empty
+   cache, every method, token list, interpretation of actions and fuel: whenever the uncached run
+   terminates, the cached run returns the same outcome -- the same value, the same failure, or the
+   same exception INCLUDING the token a SyntaxError points at -- and on a normal outcome the same
+   final position and the same furthest token fetched (what make_syntax_error reports for a soft
+   failure).  (Proofs/FuelMono.v: more fuel never changes an answer; Proofs/CacheStable.v: the
+   uncached run reads its state only through the position; Proofs/CacheSim.v: simulation with the
+   invariant that every memo entry is what the uncached invocation at its position returns.)
+   "_partial": the full statement also quantifies over verbose tracing and error mode, where it is
+   REFUTED above (C04_verbose_refuted, C04_cache_refuted_in_error_mode), and over left-recursive
+   leaders, whose seed growing reads and overwrites the cache by design (Props/C02.v and the
+   four-configuration correspondence cover those). *)
+From Pegen Require Import Proofs.FuelMono Proofs.CacheStable Proofs.CacheSim.
+Theorem C04_cache_transparent_partial :
+  forall K toks M aeval ex td fuel n s,
+  no_left_rec M = true -> invalid s = false -> cache s = [] ->
+  let rU := run K toks false false M aeval ex td fuel n s in
+  let rC := run K toks false true M aeval ex td fuel n s in
+  fst rU <> OutOfFuel ->
+  fst rC = fst rU /\
+  (forall v, fst rU = Ok v -> pos (snd rC) = pos (snd rU) /\ fetched (snd rC) = fetched (snd rU)).
+Proof.
+  intros K toks M aeval ex td fuel n s Hn Hi Hc rU rC Hd.
+  assert (Hs : sim K toks M aeval ex td s s).
+  { unfold sim. repeat split; auto. rewrite Hc. intros k r H. discriminate H. }
+  destruct (cache_transparent K toks M aeval ex td Hn fuel n s s Hs Hd) as (Ho & Hok).
+  split; [exact Ho|]. intros v Hv. destruct (Hok v Hv) as (Hp & Hf & _). split; assumption.
+Qed.
+Print Assumptions C04_cache_transparent_partial.
+
+(* non-vacuity: a module without leaders where the cache is HIT (the cached run logs fewer invocations),
+   the hypotheses hold and the runs agree.   start: a NUMBER | a NEWLINE ;  a: NAME   on  x NEWLINE *)
+Definition t_mod : ir_module :=
+  {| i_header := None; i_subheader := ""; i_class := "P"; i_keywords := []; i_soft_keywords := []; i_trailer := None;
+     i_meths := [mk_meth "start" false
+                   [plain_alt [cjv "a" (CMeth "a"); cjv "number" (CMeth "number")] "[a, number]" ["a"; "number"];
+                    plain_alt [cjv "a" (CMeth "a"); cjv "_newline" (CExpect "'NEWLINE'")] "[a, _newline]" ["a"; "_newline"]];
+                 mk_meth "a" false [plain_alt [cjv "name" (CMeth "name")] "name" ["name"]]] |}.
+Definition t_toks : list rtok := [mkt 1 "x" 0; mkt 4 "" 1; mkt 0 "" 2].
+Definition t_run (use_cache : bool) :=
+  let '(o, s) := run KD t_toks false use_cache t_mod (fun _ _ => Some VTrue) [] [("NEWLINE", 4%N)] 20 "start" init_state in
+  (match o with Ok v => truthy v | _ => false end, pos s, fetched s, List.length (events s)).
+Example C04_transparent_example :
+  no_left_rec t_mod = true /\ t_run true = (true, 2, 2, 6) /\ t_run false = (true, 2, 2, 7).
+Proof. vm_compute. repeat split; reflexivity. Qed.
+Print Assumptions C04_transparent_example.
